@@ -249,38 +249,3 @@ lem('c18_urlenc_body', ['htp_content_handlers.c'], URLB_H,
      'KNOWN_F_C18_URLENC_PARAMS: after HTP_ERROR with the parser table still alive the harness rolls the partial move back (frees the htp_param_t records, empties tx->request_params) before the teardown (finding c18_urlenc_params); everything else is checked'],
     defs={'KNOWN_F_C18_URLENC_PARAMS': 1}, link=TXLINK, unwind=6,
     pre_instrument=['--replace-calls', 'htp_tx_urldecode_params_inplace:c18_nop_urldecode'])
-
-# ======================================================================================================================
-# 6. htp_tx_create ; htp_tx_destroy_incomplete ; htp_conn_destroy (all REAL)
-# ======================================================================================================================
-TXC_H = r'''
-static void txc_case(int full) {                                   /* full: the transaction list has no free slot, htp_list_add must grow */
-  htp_connp_t *connp = malloc(sizeof(*connp)); htp_conn_t *conn = malloc(sizeof(*conn)); htp_cfg_t *cfg = malloc(sizeof(*cfg));
-  htp_list_array_t *txs = malloc(sizeof(*txs)); void **txe = C18_ELEMS_RAW(1);
-#define CLEAN free(connp); free(conn); free(cfg); free(txs); free(txe)
-  C18_NEED(connp, CLEAN) C18_NEED(conn, CLEAN) C18_NEED(cfg, CLEAN) C18_NEED(txs, CLEAN) C18_NEED(txe, CLEAN)
-  *connp = (htp_connp_t){0}; *conn = (htp_conn_t){0}; *cfg = (htp_cfg_t){0};
-  C18_LIST_INIT(txs, txe, 1);
-  if (full) { C18_LIST_PUT(txs, NULL); txs->last = 0; }            /* one slot, taken by an already destroyed transaction (NULL entry) */
-  conn->transactions = txs; connp->conn = conn; connp->cfg = cfg;
-  htp_tx_t *tx = htp_tx_create(connp);
-  if (tx != NULL) {
-    VASSERT(tx->connp == connp && tx->conn == conn && tx->cfg == cfg && tx->is_config_shared == HTP_CONFIG_SHARED, "created transaction is wired to its parser, connection and configuration");
-    VASSERT(tx->parsed_uri_raw != NULL && tx->request_headers != NULL && tx->request_params != NULL && tx->response_headers != NULL, "created transaction owns its four containers");
-    connp->in_tx = tx; connp->out_tx = tx;
-    int in_list = htp_list_size(conn->transactions) > 0 && htp_list_get(conn->transactions, htp_list_size(conn->transactions) - 1) == tx;
-    if (!full) VASSERT(in_list, "with a free slot the transaction is registered with the connection");
-    /* htp_tx_create ignores the result of htp_list_add: after a failed growth the transaction is returned but NOT registered, so
-     * htp_conn_destroy would never see it (a leak, not a memory error).  The harness destroys such a transaction itself. */
-    if (!in_list || destroy_first) { htp_tx_destroy_incomplete(tx); VASSERT(connp->in_tx == NULL && connp->out_tx == NULL, "a destroyed transaction is detached from the parser"); }
-  } else VASSERT(htp_list_size(conn->transactions) == (size_t) (full != 0), "failed creation registers nothing");
-  htp_conn_destroy(conn);                                           /* destroys every transaction still registered, the list and the connection */
-  free(connp); free(cfg);
-}
-void HARNESS(void) { int full; if (full) txc_case(1); else txc_case(0); CANARY(); }'''
-lem('c18_tx_create', ['htp_transaction.c'], TXC_H.replace('destroy_first', 'nondet_int()'),
-    'htp_tx_create ; [htp_tx_destroy_incomplete] ; htp_conn_destroy, all real (htp_uri_alloc, three htp_table_create, htp_list_add with and without growth): every partial construction is undone exactly once, a transaction whose registration failed is still destroyable (htp_conn_remove_tx declines), nothing leaks',
-    ['parser, connection (no addresses, no log messages) and configuration laid out field by field; transaction list of capacity 1, empty or holding one NULL entry (then htp_list_add must grow: realloc path and its failure)',
-     'surfaced, not a C18 violation: htp_tx_create ignores htp_list_add\'s result; an unregistered transaction is never destroyed by htp_conn_destroy (leak) - the harness destroys it explicitly',
-     'real htp_table.c, htp_list.c, bstr.c, htp_util.c, htp_connection.c, htp_connection_parser.c, htp_urlencoded.c, htp_multipart.c, htp_hooks.c, htp_config.c linked'],
-    link=[l for l in TXLINK if l != 'htp_transaction.c'] + ['htp_content_handlers.c'], unwind=3, post='int nondet_int(void);')
